@@ -145,10 +145,9 @@ def make_grid(min_: Number, max_: Number, step: Number) -> Iterator[Number]:
         max_:  maximum value of grid
         step:  grid step size
     """
-    x = min_
-    while x <= max_:
-        yield x
-        x += step
+    num_steps = int((max_ - min_) / step + 1e-9)
+    for i in range(num_steps + 1):
+        yield min_ + i * step
 
 
 def generate_combinations(interactions: Iterable[T]) -> List[List[T]]:
